@@ -883,6 +883,25 @@ namespace
         return;
       }
 
+      if (const auto *CO = dyn_cast<ConditionalOperator> (S))
+      {
+        // `is_constant_evaluated () ? a : b` selects like the if statement does: each operand is
+        // reachable only under its value of the condition
+        Tri t = ceVal (CO->getCond ());
+        bool guard = mentionsICE (CO->getCond ());
+        walk (CO->getCond (), c);
+        WalkCtx ct = c, cf = c;
+        ct.ce = c.ce && t != TFalse;
+        cf.ce = c.ce && t != TTrue;
+        if (guard && t == TTrue)
+          ct.ceOnly = true;
+        if (guard && t == TFalse)
+          cf.ceOnly = true;
+        walk (CO->getTrueExpr (), ct);
+        walk (CO->getFalseExpr (), cf);
+        return;
+      }
+
       if (const auto *TS = dyn_cast<CXXTryStmt> (S))
       {
         walk (TS->getTryBlock (), c);
